@@ -278,6 +278,12 @@ func (db *MultiBucketBackend) DeleteBucket(name string) (rerr error) {
 	db.lock.Lock()
 	defer db.lock.Unlock()
 
+	if exists, err := db.bucketExistsLocked(name); err != nil {
+		return err
+	} else if !exists {
+		return gofakes3.BucketNotFound(name)
+	}
+
 	entries, err := afero.ReadDir(db.bucketFs, name)
 	if err != nil {
 		return err
@@ -312,6 +318,12 @@ func (db *MultiBucketBackend) DeleteBucket(name string) (rerr error) {
 func (db *MultiBucketBackend) ForceDeleteBucket(name string) error {
 	db.lock.Lock()
 	defer db.lock.Unlock()
+
+	if exists, err := db.bucketExistsLocked(name); err != nil {
+		return err
+	} else if !exists {
+		return gofakes3.BucketNotFound(name)
+	}
 
 	// Delete all objects in the bucket
 	entries, err := afero.ReadDir(db.bucketFs, name)
